@@ -893,7 +893,7 @@ pub fn run_conc_full(trace: &Trace, scratch: PathBuf, verbose: bool, known_open:
             let p = format!("{}/replays/C14-{}-stuck.trace", crate::verif_root(), trace.cfg.seed);
             let _ = std::fs::create_dir_all(format!("{}/replays", crate::verif_root()));
             let _ = std::fs::write(&p, txt);
-            println!("F 0 {}\tconc-stuck\tC14\t0\t{what}; schedule so far written to {p}", trace.cfg.seed);
+            // (the parent sees this worker die inside the run and reports it with a replay)
             use std::io::Write;
             let _ = std::io::stdout().flush();
             std::process::exit(3);
